@@ -413,7 +413,7 @@ func (p *Pollard) Verify(delHashes []Hash, proof Proof, remember bool) error {
 	if err := checkNoEmptyHashes(delHashes, proof); err != nil {
 		return err
 	}
-	_, rootCandidates, err := calculateHashes(p.NumLeaves, delHashes, proof)
+	_, rootCandidates, rootRows, err := calculateHashesRows(p.NumLeaves, delHashes, proof)
 	if err != nil {
 		return err
 	}
@@ -422,10 +422,11 @@ func (p *Pollard) Verify(delHashes []Hash, proof Proof, remember bool) error {
 			"but have %d deletions", len(delHashes))
 	}
 
+	// Each candidate must match the root of the tree it was calculated in.
 	rootMatches := 0
-	for i := range p.Roots {
-		if len(rootCandidates) > rootMatches &&
-			p.Roots[len(p.Roots)-(i+1)].data == rootCandidates[rootMatches] {
+	for i := range rootCandidates {
+		idx := rootIndexForRow(p.NumLeaves, rootRows[i])
+		if idx < len(p.Roots) && p.Roots[idx].data == rootCandidates[i] {
 			rootMatches++
 		}
 	}
@@ -544,6 +545,12 @@ func getNextPos(slice1, slice2 []uint64, slice1Idx, slice2Idx int) (uint64, int,
 // hashes of the roots and the nodes used to calculate the roots after the
 // deletion of the targets.
 func calculateHashes(numLeaves uint64, delHashes []Hash, proof Proof) (hashAndPos, []Hash, error) {
+	hnp, roots, _, err := calculateHashesRows(numLeaves, delHashes, proof)
+	return hnp, roots, err
+}
+
+// calculateHashesRows is calculateHashes that also returns the row of each calculated root.
+func calculateHashesRows(numLeaves uint64, delHashes []Hash, proof Proof) (hashAndPos, []Hash, []uint8, error) {
 	totalRows := TreeRows(numLeaves)
 
 	// Where all the parent hashes we've calculated in a given row will go to.
@@ -560,6 +567,7 @@ func calculateHashes(numLeaves uint64, delHashes []Hash, proof Proof) (hashAndPo
 
 	// Where all the root hashes that we've calculated will go to.
 	calculatedRootHashes := make([]Hash, 0, numRoots(numLeaves))
+	calculatedRootRows := make([]uint8, 0, numRoots(numLeaves))
 
 	// Separate index for the hashes in the passed in proof.
 	proofHashIdx := 0
@@ -584,7 +592,7 @@ func calculateHashes(numLeaves uint64, delHashes []Hash, proof Proof) (hashAndPo
 		}
 
 		if havePrev && provePos <= prevPos {
-			return hashAndPos{}, nil, fmt.Errorf("invalid proof. Position %d is a "+
+			return hashAndPos{}, nil, nil, fmt.Errorf("invalid proof. Position %d is a "+
 				"duplicate or an ancestor of another target", provePos)
 		}
 		havePrev, prevPos = true, provePos
@@ -598,7 +606,7 @@ func calculateHashes(numLeaves uint64, delHashes []Hash, proof Proof) (hashAndPo
 		for provePos > maxPos {
 			row++
 			if row > totalRows {
-				return hashAndPos{}, nil, fmt.Errorf("invalid proof. Position %d "+
+				return hashAndPos{}, nil, nil, fmt.Errorf("invalid proof. Position %d "+
 					"doesn't exist in a forest of %d leaves", provePos, numLeaves)
 			}
 			maxPos, _ = maxPositionAtRow(row, totalRows, numLeaves)
@@ -607,6 +615,7 @@ func calculateHashes(numLeaves uint64, delHashes []Hash, proof Proof) (hashAndPo
 		// This means we hashed all the way to the top of this subtree.
 		if isRootPositionOnRow(provePos, numLeaves, row) {
 			calculatedRootHashes = append(calculatedRootHashes, proveHash)
+			calculatedRootRows = append(calculatedRootRows, row)
 			continue
 		}
 
@@ -614,7 +623,7 @@ func calculateHashes(numLeaves uint64, delHashes []Hash, proof Proof) (hashAndPo
 		sibPresent := sibIdx != -1
 		if sibPresent && !isLeftNiece(provePos) {
 			// rightSib() of a right sibling is itself so the "sibling" is a duplicate.
-			return hashAndPos{}, nil, fmt.Errorf("invalid proof. Position %d is given twice", provePos)
+			return hashAndPos{}, nil, nil, fmt.Errorf("invalid proof. Position %d is given twice", provePos)
 		}
 		if sibPresent {
 			havePrev, prevPos = true, rightSib(provePos)
@@ -627,7 +636,7 @@ func calculateHashes(numLeaves uint64, delHashes []Hash, proof Proof) (hashAndPo
 			}
 		} else {
 			if len(proof.Proof) <= proofHashIdx {
-				return hashAndPos{}, nil, fmt.Errorf("invalid proof. Proof too short.")
+				return hashAndPos{}, nil, nil, fmt.Errorf("invalid proof. Proof too short.")
 			}
 
 			// If the next prove isn't the sibling of this prove, we fetch
@@ -644,7 +653,12 @@ func calculateHashes(numLeaves uint64, delHashes []Hash, proof Proof) (hashAndPo
 	// Add in the targets as well since we need them as well to calculate up
 	// to the roots.
 	nextProves = mergeSortedHashAndPos(nextProves, toProve)
-	return nextProves, calculatedRootHashes, nil
+	return nextProves, calculatedRootHashes, calculatedRootRows, nil
+}
+
+// rootIndexForRow returns the index into the roots slice of the root on the given row.
+func rootIndexForRow(numLeaves uint64, row uint8) int {
+	return int(numRoots(numLeaves >> (row + 1)))
 }
 
 // checkNoEmptyHashes returns an error if any of the hashes to verify or any of the
